@@ -3,6 +3,7 @@
 from __future__ import annotations
 
 import ast
+import os
 import re
 from typing import Any, Dict, List, Optional, Set, Tuple
 
@@ -960,6 +961,54 @@ def r17i(ctx: Context) -> None:
         raise AnalysisError(f"only {checked} membership validators found (6 confirmed)")
 
 
+def validated_items(prog: Program) -> Dict[str, Set[str]]:
+    """rule class -> configuration items read with a validator (valid_value_fn given and not None)"""
+    base = prog.cls(RULE_PLUGIN)
+    table: Dict[str, Set[str]] = {}
+    for cls in base.all_subclasses():
+        if not cls.module.rel.startswith("pymarkdown/plugins/") or cls.methods.get("initialize_from_config") is None:
+            continue
+        items = table.setdefault(cls.name, set())
+        for _func, call in _getter_calls(prog, method_closure(prog, cls, ["initialize_from_config"], stop_at=base)):
+            name = call.args[0] if call.args else None
+            validator = next((k.value for k in call.keywords if k.arg == "valid_value_fn"), None)
+            if isinstance(name, ast.Constant) and isinstance(name.value, str) and validator is not None and not (isinstance(validator, ast.Constant) and validator.value is None):
+                items.add(name.value)
+    return table
+
+
+def r17j(ctx: Context) -> None:
+    """'An invalid value falls back to the default unless strict mode is on, in which case the run stops': that is what
+    the validator of an item brings about.  An item that is read with a validator on the pinned tree and without one
+    now takes whatever the configuration says - out of range, wrongly spelled - in both modes."""
+    import json
+
+    prog = ctx.prog
+    rule = ctx.rule("R17j", "every configuration item that the pinned tree validates is still read with a validator", 20)
+    path = os.path.join(os.path.dirname(os.path.dirname(os.path.abspath(__file__))), "baseline", "validated_items.json")
+    if not os.path.exists(path):
+        raise AnalysisError("sa/baseline/validated_items.json is missing (tools/gen_validated_baseline.py)")
+    with open(path, encoding="utf-8") as handle:
+        pinned = json.load(handle)
+    now = validated_items(prog)
+    base = prog.cls(RULE_PLUGIN)
+    read_now: Dict[str, Set[str]] = {}
+    for cls in base.all_subclasses():
+        if cls.name in pinned and cls.methods.get("initialize_from_config") is not None:
+            read_now[cls.name] = {call.args[0].value for _f, call in _getter_calls(prog, method_closure(prog, cls, ["initialize_from_config"], stop_at=base))
+                                  if call.args and isinstance(call.args[0], ast.Constant) and isinstance(call.args[0].value, str)}
+    for cls_name, items in sorted(pinned.items()):
+        for item in items:
+            key = f"{cls_name}: {item}"
+            if cls_name not in read_now or item not in read_now[cls_name]:
+                rule.ok(key, "the item is no longer read under this name (documentation agreement: R17d)")
+            elif item in now.get(cls_name, set()):
+                rule.ok(key, "validated")
+            else:
+                cls = next(c for c in base.all_subclasses() if c.name == cls_name)
+                rule.fail(key, where(cls.methods["initialize_from_config"]), f"'{item}' of {cls_name} was read with a validator on the pinned tree and is read without one now: a value outside what the rule documents is used as it is (no fall-back to the default) and strict mode no longer stops the run")
+
+
 def run(ctx: Context) -> None:
     r17a(ctx)
     r17b(ctx)
@@ -969,6 +1018,7 @@ def run(ctx: Context) -> None:
     r17g(ctx)
     r17h(ctx)
     r17i(ctx)
+    r17j(ctx)
     from sa.rules import c18
 
     c18.config_read_after_load(ctx, "R17e")
